@@ -297,9 +297,24 @@ def run(P, rep, tier):
     r0713(F, P, rep)
     r0715(F, rep)
     r0717(F, P, rep)
+    r0718(F, P, rep)
     back = _static_back_end(P, tier)
     r0712(P, rep, tier, back)
     r0714(P, rep, tier, back)
+
+
+# ----------------------------------------------------------------- R07.18 ---
+def r0718(F, P, rep):
+    from .. import lib_c07_case
+    rep.rule('R07.18', 'a case label (and the end of a case range) reaches Node.begin / Node.end as the folder\'s value converted, if at all, to a type of at least int\'s size '
+                       '(C11 6.8.4.2p5: the promoted type of the controlling expression; the generated switch compares in a register of at least 32 bits): no conversion node of a '
+                       'type that may be char / short / _Bool is put around the constant before it is folded, no integral conversion below 32 bits lies between the folder and the field, '
+                       'and the code generator reads the fields as 64-bit values', floor=3)
+    sizes = {}
+    for name, r in F.trec.items():
+        if isinstance(r.get('size'), int) and not isinstance(r.get('size'), bool):
+            sizes['ty_' + name] = r['size']
+    lib_c07_case.run_rule(P, rep, 'R07.18', ctype, tshow, sizes)
 
 
 # ------------------------------------------------------------------ R07.8 ---
